@@ -545,3 +545,265 @@ EXTRA = {
     "C20": [(eq_polarity, "C20.9")],
     "C01": [(identifier_validity, "C01.12")],
 }
+
+
+# ---------------------------------------------------------------- slices
+
+SLICE_MODULES = ("jaqalpaq.core.register", "jaqalpaq.core.circuitbuilder", "jaqalpaq.generator.generator", "jaqalpaq.core.algorithm.fill_in_let", "jaqalpaq.core.algorithm.fill_in_map", "jaqalpaq.core.algorithm.expand_macros")
+COMPONENTS = ("start", "stop", "step")
+
+
+def _component_of(name):
+    for c in COMPONENTS:
+        if name == c or name.endswith("_" + c):
+            return c
+    return None
+
+
+def slice_components(ctx, rep, rule):
+    """A local named start/stop/step is computed from the slice component of
+    the same name; a constant replaces it only where it is None."""
+    ix = ctx.ix
+    rep.rule(rule, "where slice bounds are handled, a local called start / stop / step is computed from the component of that name (never from a sibling), a default replaces it only under a None test of that component, and `x or d` is not written `x and d`", floor=12)
+    n = 0
+    for f in ix.functions.values():
+        if f.module not in SLICE_MODULES or isinstance(f.node, ast.Lambda):
+            continue
+        for st in walk_no_nested(f.node):
+            if not (isinstance(st, ast.Assign) and len(st.targets) == 1 and isinstance(st.targets[0], ast.Name) and st.targets[0].id in COMPONENTS):
+                continue
+            x = st.targets[0].id
+            v = st.value
+            mentioned = set()
+            in_tests = {id(z) for e in ast.walk(v) if isinstance(e, ast.IfExp) for z in ast.walk(e.test)}
+            for m in ast.walk(v):
+                if id(m) in in_tests:
+                    continue
+                if isinstance(m, ast.Attribute) and m.attr in COMPONENTS:
+                    mentioned.add(m.attr)
+                elif isinstance(m, ast.Name) and _component_of(m.id):
+                    mentioned.add(_component_of(m.id))
+            n += 1
+            cons = construct_of(f, f"slice-{x}")
+            loc = f"{f.path}:{st.lineno}"
+            bad_and = [b for b in ast.walk(v) if isinstance(b, ast.BoolOp) and isinstance(b.op, ast.And) and any(isinstance(e, ast.Constant) for e in b.values)]
+            if bad_and:
+                rep.violation(rule, cons, f"`{ast.unparse(st)}`: `and` with a constant yields the constant for every present bound (and None for an absent one)", loc)
+                continue
+            if mentioned and x not in mentioned:
+                rep.violation(rule, cons, f"`{ast.unparse(st)}` computes {x} from the slice's {sorted(mentioned)}: the alias covers other qubits than the ones written", loc)
+                continue
+            if not mentioned:
+                def none_test_of_x(t):
+                    for c in ast.walk(t):
+                        if isinstance(c, ast.Compare) and len(c.ops) == 1 and isinstance(c.comparators[0], ast.Constant) and c.comparators[0].value is None and any((isinstance(a, ast.Name) and _component_of(a.id) == x) or (isinstance(a, ast.Attribute) and a.attr == x) for a in ast.walk(c.left)):
+                            return True
+                    return False
+                guarded = any(none_test_of_x(t) for t, _ in _enclosing_ifs(f.node, st))
+                if guarded:
+                    rep.ok(rule, cons, "default under a test of the component", loc)
+                else:
+                    rep.violation(rule, cons, f"`{ast.unparse(st)}` replaces the slice's {x} by a value that does not depend on it, unconditionally: bounds are checked (or qubits resolved) against a slice that is not the one written", loc)
+                continue
+            # polarity of `d if c is None else c`
+            pol_bad = False
+            for e in ast.walk(v):
+                if isinstance(e, ast.IfExp) and isinstance(e.test, ast.Compare) and len(e.test.ops) == 1 and isinstance(e.test.comparators[0], ast.Constant) and e.test.comparators[0].value is None:
+                    is_none = isinstance(e.test.ops[0], (ast.Is, ast.Eq))
+                    comp_in = lambda z: any((isinstance(a, ast.Attribute) and a.attr == x) or (isinstance(a, ast.Name) and _component_of(a.id) == x) for a in ast.walk(z))
+                    when_none, when_set = (e.body, e.orelse) if is_none else (e.orelse, e.body)
+                    if comp_in(when_none) and not comp_in(when_set):
+                        pol_bad = True
+            if pol_bad:
+                rep.violation(rule, cons, f"`{ast.unparse(st)}` uses the component where it is None and the default where it is given", loc)
+            else:
+                rep.ok(rule, cons, f"from the slice's {x}", loc)
+    if n < 12:
+        raise AnalysisError(f"{rule}: only {n} assignments of slice components found (20 on the pinned tree)")
+
+
+EXTRA["C06"].append((slice_components, "C06.14"))
+EXTRA["C14"] = [(slice_components, "C14.7")]
+
+
+# ---------------------------------------------------------------- C18
+
+def stretched_idle_branch(ctx, rep, rule):
+    ix = ctx.ix
+    f = _func(ix, "jaqalpaq.core.stretch.stretched_gates")
+    rep.rule(rule, "stretched_gates: the flag that asks for an idle twin is set exactly for idle inputs, the twin is made under that flag, and it is named after the input gate (name + suffix), not by the default I_ prefix of its parent", floor=2)
+    cons = construct_of(f, "idle-flag")
+    flag = None
+    for st in ast.walk(f.node):
+        if isinstance(st, ast.If) and "IdleGateDefinition" in ast.unparse(st.test):
+            sets_t = [a for a in st.body if isinstance(a, ast.Assign) and isinstance(a.value, ast.Constant) and isinstance(a.value.value, bool)]
+            sets_f = [a for a in st.orelse if isinstance(a, ast.Assign) and isinstance(a.value, ast.Constant) and isinstance(a.value.value, bool)]
+            if sets_t and sets_f and isinstance(sets_t[0].targets[0], ast.Name):
+                flag = sets_t[0].targets[0].id
+                positive = isinstance(st.test, ast.Call)
+                want_body, want_else = (True, False) if positive else (False, True)
+                if sets_t[0].value.value is want_body and sets_f[0].value.value is want_else:
+                    rep.ok(rule, cons, f"`{flag}` is true for idle inputs only", f"{f.path}:{st.lineno}")
+                else:
+                    rep.violation(rule, cons, f"`{flag} = {sets_t[0].value.value}` under `{ast.unparse(st.test)}`: idle inputs get no stretched idle twin (or every gate gets one)", f"{f.path}:{st.lineno}")
+    if flag is None:
+        rep.undecided(rule, cons, "idle flag not recognised", f.loc())
+        return
+    cons = construct_of(f, "idle-twin")
+    made = [c for c in ast.walk(f.node) if isinstance(c, ast.Call) and isinstance(c.func, ast.Name) and c.func.id == "IdleGateDefinition"]
+    if not made:
+        rep.violation(rule, cons, "no idle twin is made", f.loc())
+    for c in made:
+        tests = _enclosing_ifs(f.node, c)
+        under = [(t, taken) for t, taken in tests if isinstance(t, ast.Name) and t.id == flag or (isinstance(t, ast.UnaryOp) and isinstance(t.operand, ast.Name) and t.operand.id == flag)]
+        loc = f"{f.path}:{c.lineno}"
+        if not under:
+            rep.undecided(rule, cons, f"the twin is not made under a plain test of `{flag}`", loc)
+            continue
+        t, taken = under[0]
+        pos = isinstance(t, ast.Name) == taken
+        named = any(k.arg == "name" for k in c.keywords) or len(c.args) > 1
+        if not pos:
+            rep.violation(rule, cons, f"the idle twin is made when `{flag}` is false: active inputs get idle twins, idle inputs none", loc)
+        elif not named:
+            rep.violation(rule, cons, f"`{ast.unparse(c)}` leaves the twin's name to the default (I_ + stretched parent name): for an idle gate registered under another name the stretched variant is stored under a name that is not input name + suffix", loc)
+        else:
+            rep.ok(rule, cons, "made for idle inputs, named name + suffix", loc)
+
+
+EXTRA["C18"] = [(stretched_idle_branch, "C18.10")]
+
+
+# ---------------------------------------------------------------- after seed round 6
+
+def always_visits(ctx, rep, rule, modules, exempt):
+    """No path through a handler with children returns normally without
+    having passed a statement that visits (or delegates) them."""
+    from ..cfg import CFG
+    ix = ctx.ix
+    rep.rule(rule, "every non-raising path through a handler that has children passes a statement that hands them to a method of the visitor (no early `return {}` for special cases such as a zero count: discovery, analysis and transformation look at every statement, whether or not it will run)", floor=3)
+    n = 0
+    for k in ix.subclasses(VISITOR):
+        ci = ix.classes[k]
+        if ci.module not in modules:
+            continue
+        for name, fi in ci.methods.items():
+            if not name.startswith("visit_") or name == "visit_default" or len(fi.params) < 2:
+                continue
+            selfn, p = fi.params[0], fi.params[1]
+            has_children = any(isinstance(x, ast.Attribute) and x.attr in CHILD_FIELDS and isinstance(x.value, ast.Name) and x.value.id == p for x in ast.walk(fi.node))
+            if not has_children:
+                continue
+            cons = construct_of(fi, "every-path")
+            ex = exempt.get((ci.name, name)) or exempt.get((ci.name, "*"))
+            if ex:
+                rep.exempt(rule, cons, ex, fi.loc())
+                continue
+
+            def visits(st):
+                for c in ast.walk(st):
+                    if isinstance(c, ast.Call) and isinstance(c.func, ast.Attribute):
+                        if isinstance(c.func.value, ast.Name) and c.func.value.id == selfn and c.func.attr not in ("merge_into",):
+                            return True
+                        if isinstance(c.func.value, ast.Call) and isinstance(c.func.value.func, ast.Name) and c.func.value.func.id == "super":
+                            return True
+                return False
+            cfg = CFG(fi.body)
+            nodes = []
+            for st in iter_stmts(fi.body):
+                if isinstance(st, (ast.If, ast.Try, ast.With)):
+                    # only the header of an `if` is a node of its own
+                    if isinstance(st, ast.If) and visits(st.test):
+                        nodes.append(cfg.node(st))
+                    continue
+                if visits(st):
+                    nodes.append(cfg.node(st))
+            nodes = [x for x in nodes if x is not None]
+            n += 1
+            if not nodes:
+                rep.violation(rule, cons, "the handler never hands its children to the visitor", fi.loc())
+            elif cfg.stmts_reaching_exit_without(nodes):
+                # name the return that is reached
+                early = [r for r in iter_stmts(fi.body) if isinstance(r, ast.Return) and not visits(r) and cfg.node(r) in cfg.reachable_from(cfg.entry, removed_nodes=nodes)]
+                where = early[0] if early else fi.node
+                rep.violation(rule, cons, f"`{ast.unparse(where)[:60] if early else name}` is reached without the children having been visited: statements below this node are skipped on that path (e.g. the subcircuits of a zero-count loop are not discovered, so every later subcircuit gets too small an index)", f"{fi.path}:{where.lineno}")
+            else:
+                rep.ok(rule, cons, "children are visited on every returning path", fi.loc())
+    if n < 3:
+        raise AnalysisError(f"{rule}: only {n} handlers analysed")
+
+
+ALWAYS_EXEMPT = {
+    ("TraceVisitor", "*"): "the walker descends only towards the next trace start (by address) and skips what holds none: an empty trace list, a loop whose count is <= 0",
+    ("UnrollIterator", "visit_BlockStatement"): "yields the already normalised statements (see the raw-children exemption)",
+}
+
+
+def eq_no_coercion(ctx, rep, rule):
+    ix, T = ctx.ix, ctx.typer
+    rep.rule(rule, "no __eq__ converts what it compares (float(), int(), round(), str(), abs()): a conversion makes equality coarser than the values (integers beyond 2**53 collapse as floats)", floor=8)
+    n = 0
+    for k in T.ir_classes:
+        eq = ix.classes[k].methods.get("__eq__")
+        if eq is None:
+            continue
+        n += 1
+        cons = cls_construct(ix, k, "__eq__:coercion")
+        bad = [c for c in ast.walk(eq.node) if isinstance(c, ast.Call) and isinstance(c.func, ast.Name) and c.func.id in ("float", "int", "round", "str", "repr", "abs", "complex") and c.args]
+        if bad:
+            rep.violation(rule, cons, f"`{ast.unparse(bad[0])}` converts an operand before the comparison: `g 9007199254740992` and `g 9007199254740993` compare equal although the circuits generate different text (and, as loop counts passed to a macro, run a different number of times)", f"{eq.path}:{bad[0].lineno}")
+        else:
+            rep.ok(rule, cons, "operands are compared as they are", eq.loc())
+    if n < 8:
+        raise AnalysisError(f"{rule}: only {n} __eq__ methods")
+
+
+def relink_table_bound_first(ctx, rep, rule):
+    from ..cfg import CFG
+    ix = ctx.ix
+    SE = "jaqalpaq.core.algorithm.expand_subcircuits.SubcircuitExpander"
+    vc = _method(ix, SE, "visit_Circuit")
+    gh = ix.classes[SE].methods.get("visit_GateStatement")
+    rep.rule(rule, "the table from which the gate handler takes new macro definitions is the table being filled, and it is bound before the first macro body is visited (a call inside a macro body is linked to the new definition of the earlier macro)", floor=1)
+    cons = construct_of(vc, "macro-table")
+    if gh is None:
+        # reported by the relink rule (C09.8): without a gate handler no call is linked at all
+        rep.undecided(rule, cons, "the expander has no gate handler", vc.loc())
+        return
+    selfn = gh.params[0]
+    tables = {m.attr for m in walk_no_nested(gh.node) if isinstance(m, ast.Attribute) and isinstance(m.value, ast.Name) and m.value.id == selfn and "macro" in m.attr}
+    if not tables:
+        rep.undecided(rule, cons, "the gate handler reads no macro table", gh.loc())
+        return
+    tbl = sorted(tables)[0]
+    s2 = vc.params[0]
+    cfg = CFG(vc.body)
+    visits = [st for st in iter_stmts(vc.body) if not isinstance(st, (ast.If, ast.For, ast.While, ast.Try, ast.With)) and any(isinstance(c, ast.Call) and isinstance(c.func, ast.Attribute) and c.func.attr == "visit" and c.args and "macro" in ast.unparse(c.args[0]) for c in ast.walk(st))]
+    if not visits:
+        rep.undecided(rule, cons, "macros are not visited in visit_Circuit", vc.loc())
+        return
+    direct = all(any(isinstance(t, ast.Subscript) and isinstance(t.value, ast.Attribute) and t.value.attr == tbl for t in getattr(st, "targets", [])) for st in visits)
+    binds = [st for st in iter_stmts(vc.body) if isinstance(st, ast.Assign) and any(isinstance(t, ast.Attribute) and t.attr == tbl and isinstance(t.value, ast.Name) and t.value.id == s2 for t in st.targets)]
+    if direct:
+        rep.ok(rule, cons, f"results are stored into self.{tbl} one by one", vc.loc())
+    elif not binds:
+        rep.violation(rule, cons, f"self.{tbl} is never bound to the table that visit_Circuit fills: calls are linked against an empty (or stale) table", vc.loc())
+    elif all(cfg.dominates(cfg.node(binds[0]), cfg.node(v)) for v in visits):
+        src = ast.unparse(binds[0].value)
+        fills = all(src in ast.unparse(v) for v in visits)
+        if fills:
+            rep.ok(rule, cons, f"`{ast.unparse(binds[0])}` precedes the visits, which fill that table", f"{vc.path}:{binds[0].lineno}")
+        else:
+            rep.violation(rule, cons, f"`{ast.unparse(binds[0])}` is not the table the visits fill", f"{vc.path}:{binds[0].lineno}")
+    else:
+        rep.violation(rule, cons, f"`{ast.unparse(binds[0])}` comes after macro bodies have been visited: while they are visited the table is still empty, so a call of an earlier macro inside a macro body keeps its old definition (whose body still contains the subcircuit blocks)", f"{vc.path}:{binds[0].lineno}", witness="macro inner a { subcircuit { Px a } }; macro outer a { inner a }")
+
+
+_W = [_ALG + "walkers"]
+_EXCL = ALWAYS_EXEMPT
+EXTRA["C08"].append((always_visits, "C08.11", [_ALG + "walkers"], _EXCL))
+EXTRA["C13"].append((always_visits, "C13.14", [_ALG + "walkers", _ALG + "used_qubit_visitor"], _EXCL))
+EXTRA["C10"].append((always_visits, "C10.16", [_ALG + "fill_in_map", _ALG + "fill_in_let", _ALG + "expand_macros", _ALG + "expand_subcircuits", _ALG + "unit_timing"], _EXCL))
+EXTRA["C09"].append((always_visits, "C09.11", [_ALG + "expand_subcircuits"], _EXCL))
+EXTRA["C09"].append((relink_table_bound_first, "C09.12"))
+EXTRA["C20"].append((eq_no_coercion, "C20.10"))
